@@ -27,7 +27,7 @@ func init() {
 		},
 		Run:            c16Run,
 		Floor:          func(tier string) int { return 800 },
-		Rule:           "models built from per-sample operators along a tracked batch axis: (A) dense chains on [N,F] (Gemm/MatMul against weights, elementwise with per-feature weights, one column per sample stretched against a weight vector whose length may coincide with the batch size, Relu/Tanh/Sigmoid, PRelu, Softmax/LogSoftmax over the feature axis, Scaler, LinearRegressor, Concat/Gather/Slice on the feature axis, Flatten/Unsqueeze/Squeeze/Reshape that keep the batch axis), (B) Conv on [N,C,H,W] followed by Flatten and Gemm, (C) RNN/GRU/LSTM on [S,N,I] (batch on axis 1) followed by Squeeze and elementwise operators; plus the sample models mlp, gru, scaler, ndm. For batch sizes 2..6 the real code is its own reference: Run(batch)[i] ~ Run(sample i alone), Run(permuted batch) ~ permuted Run(batch), Run(sub-selection) ~ the selected rows; in half of the cases the batch and its parts run on ONE loaded model (alternating batch sizes), otherwise on freshly loaded models (tolerance 2e-4 abs+rel: BLAS blocking may differ with the batch size; a row-mixing defect changes results by O(1)); success/failure must agree between the batch and its parts. Non-trivial = batch >= 2 with rows that differ; distinct = (model structure, batch size, relation).",
+		Rule:           "models built from per-sample operators along a tracked batch axis: (A) dense chains on [N,F] (Gemm/MatMul against weights, elementwise with per-feature weights, one column per sample stretched against a weight vector whose length may coincide with the batch size, Relu/Tanh/Sigmoid, PRelu, Softmax/LogSoftmax over the feature axis, Scaler, LinearRegressor, Concat/Gather/Slice on the feature axis, Flatten/Unsqueeze/Squeeze/Reshape that keep the batch axis), (B) Conv on [N,C,H,W] followed by Flatten and Gemm, (D) multi-head MatMul X[N,heads,m,k] x W[heads,k,n] (weights broadcast over the batch axis), (C) RNN/GRU/LSTM on [S,N,I] (batch on axis 1) followed by Squeeze and elementwise operators; plus the sample models mlp, gru, scaler, ndm. For batch sizes 2..6 the real code is its own reference: Run(batch)[i] ~ Run(sample i alone), Run(permuted batch) ~ permuted Run(batch), Run(sub-selection) ~ the selected rows; in half of the cases the batch and its parts run on ONE loaded model (alternating batch sizes), otherwise on freshly loaded models (tolerance 2e-4 abs+rel: BLAS blocking may differ with the batch size; a row-mixing defect changes results by O(1)); success/failure must agree between the batch and its parts. Non-trivial = batch >= 2 with rows that differ; distinct = (model structure, batch size, relation).",
 		RaceInThorough: true,
 		Technique:      "runtime monitoring: metamorphic relations on the real code (batch decomposition, permutation, sub-selection)",
 		Assumptions:    []string{"the generator only emits operators that act per sample along the tracked batch axis"},
@@ -44,7 +44,7 @@ type batchModel struct {
 func genBatchModel(r *gen.R) *batchModel {
 	p := newProgram(r)
 	var extraInputs []batchedInput
-	fam := r.Intn(3)
+	fam := r.Intn(4)
 	var cur string
 	axis := 0
 	N0 := 2
@@ -55,6 +55,9 @@ func genBatchModel(r *gen.R) *batchModel {
 	case 1:
 		cur = "img"
 		p.addInput(cur, uniformT(r, ref.F32, []int{N0, r.Range(1, 3), r.Range(3, 6), r.Range(3, 6)}, 1), nil)
+	case 3:
+		cur = "heads"
+		p.addInput(cur, uniformT(r, ref.F32, []int{N0, r.Range(2, 3), r.Range(1, 3), r.Range(1, 4)}, 1), nil)
 	default:
 		cur = "seq"
 		axis = 1
@@ -112,6 +115,13 @@ func genBatchModel(r *gen.R) *batchModel {
 		outs = append(outs, cur)
 		add(progNode{G: mon.GNode{Op: "Relu", Inputs: []string{cur}}, Mode: CmpTol, Eval: approxEval(func(in []*ref.T) (*ref.Approx, error) { return ref.Unary("Relu", in[0]) })}, 0)
 		add(progNode{G: mon.GNode{Op: "Flatten", Inputs: []string{cur}, Attrs: []*mon.Attr{mon.AttrI("axis", 1)}}, Mode: CmpBits, Eval: exactEval(func(in []*ref.T) (*ref.T, error) { return ref.Flatten(in[0], 1) })}, 0)
+	}
+	if fam == 3 { // multi-head product: X (N, heads, m, k) x W (heads, k, n) / (1, heads, k, n) / (k, n)
+		xv := p.Values[cur]
+		h, k, n := xv.Shape[1], xv.Shape[3], r.Range(1, 4)
+		w := p.addInit("Wh", p.smallWeights(r.PickShape([]int{h, k, n}, []int{1, h, k, n}, []int{h, k, n}, []int{k, n}), 1))
+		add(progNode{G: mon.GNode{Op: "MatMul", Inputs: []string{cur, w}}, Mode: CmpTol, Eval: approxEval(func(in []*ref.T) (*ref.Approx, error) { return ref.MatMul(in[0], in[1]) })}, 0)
+		outs = append(outs, cur)
 	}
 	if fam == 2 { // recurrent -> Squeeze(axis 1)
 		op := r.PickStr("RNN", "GRU", "LSTM")
